@@ -6,14 +6,6 @@ From Coq Require Import Init.Byte.
 From FFS Require Import Base.Res Base.Bytes Gen.AbiConsts AbiType.Syntax AbiType.Model Ffi.Model Ffi.Spec Ffi.Proofs.
 Import ListNotations.
 
-(* same class, same value when Ok (error codes may differ: which member is reported first) *)
-Definition requiv {A} (a b : res A) : Prop :=
-  match a, b with
-  | Ok x, Ok y => x = y
-  | Err _, Err _ => True
-  | Panic, Panic => True
-  | _, _ => False
-  end.
 Lemma requiv_refl {A} (a : res A) : requiv a a. Proof. destruct a; cbn; auto. Qed.
 Lemma requiv_sym {A} (a b : res A) : requiv a b -> requiv b a.
 Proof. destruct a, b; cbn; auto. Qed.
@@ -36,24 +28,33 @@ Lemma place_eq l : forall i v,
   (do cur <- slot_get l i;
    match cur with Some _ => Err EInvalidDetails | None => slot_set l i v end) = place l i v.
 Proof.
-  induction l as [|x l IH]; intros [|i] v; try reflexivity.
-  - destruct x; reflexivity.
-  - specialize (IH i v). cbn [place]. rewrite <- IH. unfold slot_get. cbn [nth_error].
-    destruct (nth_error l i) as [[q|]|]; cbn; reflexivity.
+  induction l as [|x l IH]; intros i v.
+  - destruct i; reflexivity.
+  - destruct i as [|i].
+    + destruct x; reflexivity.
+    + specialize (IH i v). destruct x as [q0|]; cbn [place]; rewrite <- IH; unfold slot_get; cbn [nth_error];
+        destruct (nth_error l i) as [[q|]|]; cbn; reflexivity.
 Qed.
+
+Lemma place_cons_S x l i v : place (x :: l) (S i) v = do r' <- place l i v; Ok (x :: r').
+Proof. destruct x; reflexivity. Qed.
 
 Lemma place_length l : forall i v l', place l i v = Ok l' -> length l' = length l.
 Proof.
-  induction l as [|x l IH]; intros [|i] v l' H; cbn in H; try discriminate.
-  - destruct x; try discriminate. injection H as <-. reflexivity.
-  - destruct (place l i v) eqn:E; cbn in H; try discriminate. injection H as <-. cbn. f_equal. eauto.
+  induction l as [|x l IH]; intros i v l' H.
+  - destruct i; discriminate.
+  - destruct i as [|i].
+    + destruct x; cbn in H; try discriminate. injection H as <-. reflexivity.
+    + rewrite place_cons_S in H. destruct (place l i v) eqn:E; cbn in H; try discriminate.
+      injection H as <-. cbn. f_equal. eauto.
 Qed.
 
 Lemma place_no_panic l : forall i v, (i < length l)%nat -> place l i v <> Panic.
 Proof.
-  induction l as [|x l IH]; intros [|i] v H; cbn in *; try lia.
+  induction l as [|x l IH]; intros i v H; cbn in H; [lia|].
+  destruct i as [|i].
   - destruct x; discriminate.
-  - specialize (IH i v ltac:(lia)). destruct (place l i v); cbn; congruence.
+  - rewrite place_cons_S. specialize (IH i v ltac:(lia)). destruct (place l i v); cbn; congruence.
 Qed.
 
 Lemma place_comm l : forall i j v w, (i < length l)%nat -> (j < length l)%nat ->
@@ -62,27 +63,23 @@ Proof.
   induction l as [|x l IH]; intros i j v w Hi Hj; cbn in Hi, Hj; [lia|].
   destruct i as [|i], j as [|j].
   - destruct x; cbn; auto.
-  - cbn [place]. destruct x as [q|].
-    + cbn [bind]. pose proof (place_no_panic l j w ltac:(lia)) as NP.
-      destruct (place l j w); cbn; auto.
-    + cbn [bind place]. pose proof (place_no_panic l j w ltac:(lia)) as NP.
-      destruct (place l j w); cbn; auto. congruence.
-  - cbn [place]. destruct x as [q|].
-    + cbn [bind]. pose proof (place_no_panic l i v ltac:(lia)) as NP.
-      destruct (place l i v); cbn; auto.
-    + cbn [bind place]. pose proof (place_no_panic l i v ltac:(lia)) as NP.
-      destruct (place l i v); cbn; auto. congruence.
-  - cbn [place]. specialize (IH i j v w ltac:(lia) ltac:(lia)).
-    destruct (place l i v) as [l1| |] eqn:E1, (place l j w) as [l2| |] eqn:E2; cbn [bind place] in *.
-    + destruct (place l1 j w), (place l2 i v); cbn in *; try tauto. congruence.
-    + destruct (place l1 j w); cbn in *; tauto.
-    + destruct (place l1 j w); cbn in *; tauto.
-    + destruct (place l2 i v); cbn in *; tauto.
-    + auto.
-    + auto.
-    + destruct (place l2 i v); cbn in *; tauto.
-    + auto.
-    + auto.
+  - rewrite (place_cons_S x l j w).
+    pose proof (place_no_panic l j w ltac:(lia)) as NP.
+    destruct x as [q|]; cbn [place bind].
+    + destruct (place l j w); cbn; auto.
+    + destruct (place l j w); cbn; auto; congruence.
+  - rewrite (place_cons_S x l i v).
+    pose proof (place_no_panic l i v ltac:(lia)) as NP.
+    destruct x as [q|]; cbn [place bind].
+    + destruct (place l i v); cbn; auto.
+    + destruct (place l i v); cbn; auto; congruence.
+  - rewrite (place_cons_S x l i v), (place_cons_S x l j w).
+    specialize (IH i j v w ltac:(lia) ltac:(lia)).
+    destruct (place l i v) as [l1| |] eqn:E1, (place l j w) as [l2| |] eqn:E2; cbn [bind] in *;
+      rewrite ?place_cons_S;
+      repeat match goal with
+             | |- context [place ?a ?b ?c] => destruct (place a b c); cbn [bind] in *
+             end; cbn in *; try tauto; congruence.
 Qed.
 
 (* ---------- the loop, one entry at a time ---------- *)
@@ -107,33 +104,32 @@ Section order.
     destruct a as [ka pa], b as [kb pb]. intros Oa Ob.
     rewrite !loop_step. set (n := length slots).
     pose proof (Oa n) as NPa. pose proof (Ob n) as NPb. cbn [fst snd] in NPa, NPb.
-    destruct (step pf ka pa n) as [[za xa]| |] eqn:Sa; [|clear NPa|congruence];
-    destruct (step pf kb pb n) as [[zb xb]| |] eqn:Sb; try congruence; cbn [bind fst snd].
-    - (* both entries yield a position *)
-      pose proof (step_range _ _ _ _ _ _ Sa) as Ra. pose proof (step_range _ _ _ _ _ _ Sb) as Rb.
-      pose proof (place_comm slots za zb xa xb Ra Rb) as C.
-      destruct (place slots za xa) as [s1| |] eqn:P1; cbn [bind] in *.
-      + rewrite loop_step, (place_length _ _ _ _ P1). fold n. rewrite Sb. cbn [bind fst snd].
-        destruct (place slots zb xb) as [s2| |] eqn:P2; cbn [bind] in *.
-        * rewrite loop_step, (place_length _ _ _ _ P2). fold n. rewrite Sa. cbn [bind fst snd].
+    destruct (step pf ka pa n) as [[za xa]| ea |] eqn:Sa; [| |congruence].
+    - destruct (step pf kb pb n) as [[zb xb]| eb |] eqn:Sb; [| |congruence]; cbn [bind fst snd].
+      + pose proof (step_range _ _ _ _ _ _ Sa) as Ra. pose proof (step_range _ _ _ _ _ _ Sb) as Rb.
+        pose proof (place_comm slots za zb xa xb Ra Rb) as C.
+        pose proof (place_no_panic slots za xa Ra) as NP1.
+        pose proof (place_no_panic slots zb xb Rb) as NP2.
+        destruct (place slots za xa) as [s1| |] eqn:P1; [| |congruence];
+          destruct (place slots zb xb) as [s2| |] eqn:P2; try congruence; cbn [bind] in *.
+        * rewrite !loop_step, (place_length _ _ _ _ P1), (place_length _ _ _ _ P2). fold n.
+          rewrite Sa, Sb. cbn [bind fst snd].
           destruct (place s1 zb xb), (place s2 za xa); cbn in *; try tauto. subst. apply requiv_refl.
-        * destruct (place s1 zb xb); cbn in *; tauto.
-        * destruct (place s1 zb xb); cbn in *; tauto.
-      + destruct (place slots zb xb) as [s2| |] eqn:P2; cbn [bind] in *; auto.
-        rewrite loop_step, (place_length _ _ _ _ P2). fold n. rewrite Sa. cbn [bind fst snd].
-        destruct (place s2 za xa); cbn in *; tauto.
-      + exfalso. eapply place_no_panic; eauto.
-    - (* the second entry is an error *)
-      pose proof (step_range _ _ _ _ _ _ Sa) as Ra.
-      pose proof (place_no_panic slots za xa Ra) as NP.
-      destruct (place slots za xa) as [s1| |] eqn:P1; cbn [bind]; auto; [|congruence].
-      rewrite loop_step, (place_length _ _ _ _ P1). fold n. rewrite Sb. cbn. auto.
-    - (* the first entry is an error *)
-      pose proof (step_range _ _ _ _ _ _ Sb) as Rb.
-      pose proof (place_no_panic slots zb xb Rb) as NP.
-      destruct (place slots zb xb) as [s1| |] eqn:P1; cbn [bind]; auto; [|congruence].
-      rewrite loop_step, (place_length _ _ _ _ P1). fold n. rewrite Sa. cbn. auto.
-    - cbn. auto.
+        * rewrite loop_step, (place_length _ _ _ _ P1). fold n. rewrite Sb. cbn [bind fst snd].
+          destruct (place s1 zb xb); cbn in *; tauto.
+        * rewrite loop_step, (place_length _ _ _ _ P2). fold n. rewrite Sa. cbn [bind fst snd].
+          destruct (place s2 za xa); cbn in *; tauto.
+        * exact I.
+      + pose proof (step_range _ _ _ _ _ _ Sa) as Ra.
+        pose proof (place_no_panic slots za xa Ra) as NP.
+        destruct (place slots za xa) as [s1| |] eqn:P1; cbn [bind]; [|exact I|congruence].
+        rewrite loop_step, (place_length _ _ _ _ P1). fold n. rewrite Sb. exact I.
+    - destruct (step pf kb pb n) as [[zb xb]| eb |] eqn:Sb; [| |congruence]; cbn [bind fst snd].
+      + pose proof (step_range _ _ _ _ _ _ Sb) as Rb.
+        pose proof (place_no_panic slots zb xb Rb) as NP.
+        destruct (place slots zb xb) as [s1| |] eqn:P1; cbn [bind]; [|exact I|congruence].
+        rewrite loop_step, (place_length _ _ _ _ P1). fold n. rewrite Sa. exact I.
+      + exact I.
   Qed.
 
   Lemma loop_cons a r r' slots :
@@ -184,24 +180,7 @@ Proof.
 Qed.
 
 (* ---------- schemas up to the order of their property maps ---------- *)
-Definition orel (R : schema -> schema -> Prop) (a b : option schema) : Prop :=
-  match a, b with Some x, Some y => R x y | None, None => True | _, _ => False end.
 
-Fixpoint sperm (s s' : schema) {struct s} : Prop :=
-  match s, s' with
-  | Schema t o d props items, Schema t' o' d' props' items' =>
-      t = t' /\ o = o' /\ d = d' /\
-      (exists mid, Permutation mid props' /\
-         (fix rel (l m : list (bytes * option schema)) {struct l} : Prop :=
-            match l, m with
-            | [], [] => True
-            | (k, v) :: l1, (k', v') :: m1 =>
-                k = k' /\ match v, v' with Some x, Some y => sperm x y | None, None => True | _, _ => False end
-                /\ rel l1 m1
-            | _, _ => False
-            end) props mid) /\
-      match items, items' with Some x, Some y => sperm x y | None, None => True | _, _ => False end
-  end.
 
 Fixpoint props_rel (l m : list (bytes * option schema)) : Prop :=
   match l, m with
@@ -225,8 +204,7 @@ Proof.
                     /\ rel l1 m1
                 | _, _ => False
                 end) l m <-> props_rel l m).
-  { induction l as [|[k v] l IH]; intros [|[k' v'] m]; cbn; try tauto.
-    rewrite IH. unfold orel. tauto. }
+  { induction l as [|[k v] l IH]; intros [|[k' v'] m]; cbn; try tauto. }
   split.
   - intros (A & B & C & (mid & P & R) & I). repeat split; auto. exists mid. split; [exact P|]. apply E. exact R.
   - intros (A & B & C & (mid & P & R) & I). repeat split; auto. exists mid. split; [exact P|]. apply E. exact R.
@@ -262,7 +240,7 @@ Proof.
       apply loop_pointwise. clear -HP Rm. revert mid Rm.
       induction HP as [|[k v] l Hv _ IH]; intros [|[k' v'] m] R; cbn in R; try tauto; constructor.
       + destruct R as (<- & Rv & _). intros n. cbn [fst snd].
-        destruct v as [x|], v' as [y|]; cbn in Rv; try tauto; [|apply requiv_refl].
+        destruct v as [x|], v' as [y|]; cbn in Rv; try tauto; try apply requiv_refl.
         cbn in Hv. destruct (Hv y Rv) as [Hp _]. specialize (Hp k).
         unfold step. cbn [PF].
         assert (Ei : prop_index (Some x) = prop_index (Some y)).
@@ -276,9 +254,96 @@ Proof.
     apply requiv_bind; [|intros; apply requiv_refl].
     unfold components_of. destruct (bytes_eqb t jsonObjectType); [exact B|].
     destruct (bytes_eqb t jsonArrayType); [|apply requiv_refl].
-    destruct items as [x|], items' as [y|]; cbn in Ri; try tauto; [|cbn; auto].
-    cbn in HI. apply (HI y Ri).
+    destruct items as [x|], items' as [y|]; cbn in Ri; try tauto; try (cbn; auto; fail).
+    cbn in HI. destruct (HI y Ri) as [_ Hd]. exact Hd.
   - rewrite !down_unfold. destruct (bytes_eqb t jsonArrayType); [|exact B].
-    destruct items as [x|], items' as [y|]; cbn in Ri; try tauto; [|cbn; auto].
-    cbn in HI. apply (HI y Ri).
+    destruct items as [x|], items' as [y|]; cbn in Ri; try tauto; try (cbn; auto; fail).
+    cbn in HI. destruct (HI y Ri) as [_ Hd]. exact Hd.
+Qed.
+
+Theorem map_order_process s s' nm : sperm s s' -> requiv (processSchema nm s) (processSchema nm s').
+Proof. intros H. apply (sperm_process_aux s s' H). Qed.
+
+Lemma sperm_type_oneof s s' : sperm s s' -> s_type s = s_type s' /\ s_oneof s = s_oneof s'.
+Proof.
+  destruct s as [t o d p i], s' as [t' o' d' p' i']. intros H. apply sperm_unfold in H.
+  destruct H as (A & B & _). cbn. split; assumption.
+Qed.
+
+Theorem map_order_convert name verdict s s' :
+  sperm s s' ->
+  requiv (convertFFIParam (mkPin name verdict (Some (Some s))))
+         (convertFFIParam (mkPin name verdict (Some (Some s')))).
+Proof.
+  intros H. unfold convertFFIParam. cbn [pi_verdict pi_unm pi_name].
+  destruct verdict; cbn [negb]; [|cbn; auto]. cbn [processField].
+  apply requiv_bind; [apply map_order_process; exact H|]. intros ap _.
+  apply requiv_bind; [apply requiv_refl|]. intros tc _.
+  unfold inputTypeValidForTypeComponent, inputTypeString.
+  destruct (sperm_type_oneof _ _ H) as [-> ->]. apply requiv_refl.
+Qed.
+
+(* ---------- the round trip for any order of the property maps ---------- *)
+From FFS Require Import Ffi.ProofsRound.
+
+
+Lemma convert_params_requiv pins : forall pins0,
+  Forall2 (fun p p0 => requiv (convertFFIParam p) (convertFFIParam p0)) pins pins0 ->
+  requiv (convertFFIParamsToABIParameters pins) (convertFFIParamsToABIParameters pins0).
+Proof.
+  induction pins as [|p pins IH]; intros pins0 H; inversion H as [|? p0 ? ps0 E F]; subst; [apply requiv_refl|].
+  cbn [convertFFIParamsToABIParameters].
+  apply requiv_bind; [exact E|]. intros x Ex.
+  assert (Ex0 : convertFFIParam p0 = Ok x) by (rewrite Ex in E; destruct (convertFFIParam p0); cbn in E; try tauto; congruence).
+  apply requiv_bind; [apply IH; exact F|]. intros; apply requiv_refl.
+Qed.
+
+Lemma roundtrip_params_upto l xs pins :
+  paramsToFFI l = Ok xs -> Forall wf_names l -> Forall2 faithful_upto pins xs ->
+  convertFFIParamsToABIParameters pins = Ok (map norm l).
+Proof.
+  intros HX HW HF.
+  set (pins0 := map (fun ns : bytes * schema => mkPin (fst ns) true (Some (Some (snd ns)))) xs).
+  assert (F0 : Forall2 faithful pins0 xs).
+  { unfold pins0. clear. induction xs as [|ns xs IH]; cbn; constructor; [|exact IH].
+    unfold faithful. cbn. auto. }
+  pose proof (roundtrip_params l xs pins0 HX HW F0) as R0.
+  assert (Q : Forall2 (fun p p0 => requiv (convertFFIParam p) (convertFFIParam p0)) pins pins0).
+  { unfold pins0. clear -HF. induction HF as [|pn ns pins xs Hf _ IH]; cbn; constructor; [|exact IH].
+    destruct Hf as (Hn & Hv & s' & Hu & Hs). destruct pn as [n v u]. cbn in Hn, Hv, Hu. subst.
+    apply requiv_sym. apply map_order_convert. exact Hs. }
+  pose proof (convert_params_requiv pins pins0 Q) as C. rewrite R0 in C.
+  destruct (convertFFIParamsToABIParameters pins); cbn in C; try tauto. congruence.
+Qed.
+
+Theorem roundtrip_any_order e :
+  (valid_params (e_inputs e) -> valid_params (e_outputs e) ->
+   exists m, convertABIFunctionToFFIMethod e = Ok m /\
+     forall pins rets, Forall2 faithful_upto pins (m_params m) -> Forall2 faithful_upto rets (m_returns m) ->
+       ConvertFFIMethodToABI (m_name m) pins rets =
+       Ok (mkEntry EFunction (e_name e) (map norm (e_inputs e)) (map norm (e_outputs e)))) /\
+  (valid_params (e_inputs e) ->
+   exists m, convertABIEventToFFIEvent e = Ok m /\
+     forall pins, Forall2 faithful_upto pins (m_params m) ->
+       ConvertFFIEventDefinitionToABI (m_name m) pins = Ok (mkEntry EEvent (e_name e) (map norm (e_inputs e)) [])) /\
+  (valid_params (e_inputs e) ->
+   exists m, convertABIErrorToFFIError e = Ok m /\
+     forall pins, Forall2 faithful_upto pins (m_params m) ->
+       ConvertFFIErrorDefinitionToABI (m_name m) pins = Ok (mkEntry EError (e_name e) (map norm (e_inputs e)) [])).
+Proof.
+  split; [|split].
+  - intros [PI WI] [PO WO].
+    destruct (paramsToFFI_ok _ PI WI) as [xs Ex]. destruct (paramsToFFI_ok _ PO WO) as [ys Ey].
+    exists (mkMethod (e_name e) xs ys). unfold convertABIFunctionToFFIMethod. rewrite Ex, Ey. cbn [bind].
+    split; [reflexivity|]. cbn [m_name m_params m_returns]. intros pins rets Fp Fr.
+    unfold ConvertFFIMethodToABI.
+    rewrite (roundtrip_params_upto _ _ _ Ex WI Fp), (roundtrip_params_upto _ _ _ Ey WO Fr). reflexivity.
+  - intros [PI WI]. destruct (paramsToFFI_ok _ PI WI) as [xs Ex].
+    exists (mkMethod (e_name e) xs []). unfold convertABIEventToFFIEvent. rewrite Ex. cbn [bind].
+    split; [reflexivity|]. cbn [m_name m_params]. intros pins Fp.
+    unfold ConvertFFIEventDefinitionToABI. rewrite (roundtrip_params_upto _ _ _ Ex WI Fp). reflexivity.
+  - intros [PI WI]. destruct (paramsToFFI_ok _ PI WI) as [xs Ex].
+    exists (mkMethod (e_name e) xs []). unfold convertABIErrorToFFIError. rewrite Ex. cbn [bind].
+    split; [reflexivity|]. cbn [m_name m_params]. intros pins Fp.
+    unfold ConvertFFIErrorDefinitionToABI. rewrite (roundtrip_params_upto _ _ _ Ex WI Fp). reflexivity.
 Qed.
